@@ -1,7 +1,7 @@
 (* C15 correspondence: cases written by harness/cmd/c15 are evaluated here by vm_compute.
    Every float64 the implementation consumed or returned is passed as the exact dyadic rational it
    is ([Dy m e] / [FD m e] = m * 2^e), so all comparisons below are exact rational arithmetic. *)
-From PF Require Export Base.Bytes Formats.Splat Formats.Spz Check.Common.
+From PF Require Export Base.Bytes Formats.Splat Formats.Spz Formats.SpzExtra Check.Common.
 From Coq Require String.
 Notation string := String.string.
 Open Scope N_scope.
@@ -187,6 +187,28 @@ Definition spz_prop (h : header) (recs : list prec) (impl : option ispz) : bool 
     end
   else match impl with None => true | Some _ => false end.
 
+(* spz.ReadHeader judged from the bytes alone: the four little-endian fields and the four bytes, and the
+   validity rule of the format (magic "NGSP", version 1 or 2, at most 10^7 points, degree at most 3) *)
+Definition le_at (l : list N) (o : nat) : N :=
+  nth o l 0 + 256 * nth (o + 1) l 0 + 65536 * nth (o + 2) l 0 + 16777216 * nth (o + 3) l 0.
+Definition hdr_prop (stream : list N) (hdr : option header) (ok : bool) : bool :=
+  if (length stream <? 16)%nat then match hdr with None => negb ok | Some _ => false end
+  else match hdr with
+       | None => false
+       | Some h =>
+           header_eqb h {| h_magic := le_at stream 0; h_version := le_at stream 4; h_npoints := le_at stream 8;
+                           h_shdeg := nth 12 stream 0; h_fb := nth 13 stream 0; h_flags := nth 14 stream 0;
+                           h_reserved := nth 15 stream 0 |}
+           && Bool.eqb ok ((h_magic h =? 1347635022) && ((h_version h =? 1) || (h_version h =? 2))
+                           && (h_npoints h <=? 10000000) && (h_shdeg h <? 4))
+       end.
+Definition hdr_corr (stream : list N) (hdr : option header) (ok : bool) : bool :=
+  match read_header stream, hdr with
+  | None, None => negb ok
+  | Some (h, v), Some h' => header_eqb h h' && Bool.eqb v ok
+  | _, _ => false
+  end.
+
 (* ---------- SplatPly ---------- *)
 Definition adata := (string * list (list N))%type.     (* attribute, per vertex: float32 words of its components *)
 
@@ -337,6 +359,8 @@ Inductive case :=
 | CSplatRead (bytes : list N) (rd_ok : bool) (rd : list osplat)
 | CSpz (h : header) (recs : list prec) (stream : list N) (impl : option ispz)
 | CSpzRaw (stream : list N) (impl : option ispz)
+(* spz.ReadHeader on (the first bytes of) a stream: returned header, no-error flag *)
+| CSpzHdr (stream : list N) (hdr : option header) (ok : bool)
 | CPly (n : nat) (data : list adata) (hdr_props : list string) (body : list N) (back : list adata)
 (* large synthetic inputs (see above) *)
 | CBigSpz (version deg fb n seed : N) (stream_fp : Z * Z) (impl : option bigspz)
@@ -353,6 +377,7 @@ Definition corr_ok (c : case) : bool :=
   | CSplatRead bytes rd_ok rd => read_corr bytes rd_ok rd
   | CSpz h recs stream impl => bytes_eqb (encode_ref h recs) stream && spz_corr stream impl
   | CSpzRaw stream impl => spz_corr stream impl
+  | CSpzHdr stream hdr ok => hdr_corr stream hdr ok
   | CPly n data props body back =>
       list_eqb String.eqb (splatply_props (map fst data)) props
       && bytes_eqb (ply_body (map (row_of data) (seq 0 n))) body
@@ -384,6 +409,7 @@ Definition prop_ok (c : case) : bool :=
       && raw_prop bytes 0 rd
   | CSpz h recs _ impl => spz_prop h recs impl
   | CSpzRaw _ _ => true
+  | CSpzHdr stream hdr ok => hdr_prop stream hdr ok
   | CPly n data props body back =>
       (* every attribute of the cloud comes back under its name with the same float32 words *)
       forallb (fun '(a, vs) =>
